@@ -198,7 +198,7 @@ def gen_C08(w, tier):
             continue
         reps = 12 if ps.kind == "ed" or ps.toy else 4
         if big:
-            reps *= 8
+            reps *= 3
         ident = identity_bytes(w, ps)
         for i in range(reps):
             side = "ABS"[i % 3]
